@@ -32,13 +32,13 @@ ASSUMPTIONS = [
 def RULE(tier):
     q = tier == "quick"
     return (
-        "normalize_chunks: 1-d lengths 0.." + ("7" if q else "9") + " x every spec in {1..n+1, -1, None, 'auto', EVERY composition, byte strings} "
+        "normalize_chunks: 1-d lengths 0.." + ("9" if q else "10") + " x every spec in {1..n+1, -1, None, 'auto', EVERY composition, byte strings} "
         "x spelling {bare, tuple, list, dict} x itemsize {1,8} x limit {None,1,7,8,16,64} x previous_chunks in {None} U EVERY chunking x "
         "chunk-size-tolerance {1.25, 1.0}; 2-d shapes " + ("(2,3),(3,4),(4,6)" if q else "(2,3),(3,4),(4,6),(6,6)") + " and 3-d (2,3,4) x every pair/triple of per-axis "
         "specs from {1,2,-1,'auto','16B', first/last composition} (3-d: {2,-1,'auto','16B'}) x the same grids x EVERY previous chunking. Oracle: tuple of tuples of "
         "ints, each axis positive (or the single (0,) for an empty axis) and summing to the shape, explicit axes as documented, auto blocks "
-        "within the byte limit, and the call returns. rechunk: EVERY (source, target) chunking pair of 1-d n <= " + ("6" if q else "7") + ", 2-d "
-        + ("(2,3),(3,2),(3,4)" if q else "(2,3),(3,2),(3,4),(4,4),(2,6)") + " and 3-d (2,2,3) x settings {default, method='tasks', threshold=1 with block_size_limit in "
+        "within the byte limit, and the call returns. rechunk: EVERY (source, target) chunking pair of 1-d n <= " + ("7 (n = 7: default setting only)" if q else "8") + ", 2-d "
+        + ("(2,3),(3,2),(3,4),(4,4) ((4,4): 3 of the 5 settings)" if q else "(2,3),(3,2),(3,4),(4,4),(2,6),(3,5)") + " and 3-d (2,2,3) x settings {default, method='tasks', threshold=1 with block_size_limit in "
         "{1,16,32} bytes (forces multi-stage plans), balance=True}, sources/targets with zero-length chunks for n <= 4, spec targets "
         "(int, -1, dict, 'auto' with a limit), unknown-size (NaN) source axes; plan_rechunk directly over the same pairs x itemsize {1,8} x "
         "threshold {1,2,4} x block_size_limit {1,16,64,None}: every stage sums to the shape and the last is the target. Oracle: result "
@@ -55,9 +55,9 @@ LIMITS = (None, 1, 7, 8, 16, 64)
 def shards(tier):
     q = tier == "quick"
     out = []
-    nmax = 7 if q else 9
+    nmax = 9 if q else 10
     for n in range(0, nmax + 1):
-        parts = 1 if n <= 4 else (2 if n <= 6 else 8)
+        parts = 1 if n <= 4 else (2 if n <= 6 else (8 if n <= 8 else 16))
         for p in range(parts):
             out.append(("norm1", n, p, parts))
     for shp in [(2, 3), (3, 4), (4, 6)] + ([] if q else [(6, 6)]):
@@ -66,18 +66,18 @@ def shards(tier):
             out.append(("norm2", shp, p, parts))
     for p in range(4):
         out.append(("norm2", (2, 3, 4), p, 4))
-    for n in range(0, (6 if q else 7) + 1):
-        parts = 1 if n <= 4 else (2 if n == 5 else 8)
+    for n in range(0, (7 if q else 8) + 1):
+        parts = 1 if n <= 4 else (2 if n == 5 else (8 if n == 6 else 16))
         for p in range(parts):
             out.append(("re1", n, p, parts))
     for n in range(1, 5):
         out.append(("re1z", n))
-    for shp in [(2, 3), (3, 2), (3, 4), (2, 2, 3)] + ([] if q else [(4, 4), (2, 6)]):
-        parts = {(2, 3): 1, (3, 2): 1, (3, 4): 8, (2, 2, 3): 4, (4, 4): 32, (2, 6): 32}[shp]
+    for shp in [(2, 3), (3, 2), (3, 4), (2, 2, 3), (4, 4)] + ([] if q else [(2, 6), (3, 5)]):
+        parts = {(2, 3): 1, (3, 2): 1, (3, 4): 8, (2, 2, 3): 4, (4, 4): 32, (2, 6): 32, (3, 5): 32}[shp]
         for p in range(parts):
             out.append(("re2", shp, p, parts))
-    for shp in [(2, 3), (3, 4), (2, 2, 3)] + ([] if q else [(4, 4)]):
-        parts = {(2, 3): 1, (3, 4): 4, (2, 2, 3): 2, (4, 4): 16}[shp]
+    for shp in [(2, 3), (3, 4), (2, 2, 3), (4, 4)] + ([] if q else [(3, 5)]):
+        parts = {(2, 3): 1, (3, 4): 4, (2, 2, 3): 2, (4, 4): 16, (3, 5): 16}[shp]
         for p in range(parts):
             out.append(("plan", shp, p, parts))
     for n in range(1, 6):
@@ -156,7 +156,7 @@ def cases_of(shard, tier):
         j = 0
         for src in comps:
             for tgt in comps:
-                for setting in (("default",), ("tasks",), ("thr1", 1), ("balance",)):
+                for setting in (("default",), ("tasks",), ("thr1", 1), ("balance",)) if (n <= 6 or tier == "thorough") else (("default",),):
                     j += 1
                     if j % nparts == part:
                         yield ("re", (n,), (src,), (tgt,), setting)
@@ -175,7 +175,8 @@ def cases_of(shard, tier):
         j = 0
         for src in chs:
             for tgt in chs:
-                for setting in (("default",), ("thr1", 1), ("thr1", 16), ("thr1", 32), ("balance",)):
+                full = tier == "thorough" or shp != (4, 4)
+                for setting in (("default",), ("thr1", 1), ("thr1", 16), ("thr1", 32), ("balance",)) if full else (("default",), ("thr1", 1), ("thr1", 32)):
                     j += 1
                     if j % nparts == part:
                         yield ("re", shp, src, tgt, setting)
@@ -360,7 +361,13 @@ def compare_values(ctx, key, case, y, x, want_chunks):
     if want_chunks is not None and y.chunks != want_chunks:
         ctx.violation(f"{key}:wrong-chunks{re_class(case)}", case, f"result chunks {y.chunks} != requested {want_chunks}")
         return False
-    got, problem = arr.compute_blocks(y)
+    try:
+        got, problem = arr.compute_blocks(y)
+    except Hang:
+        raise
+    except Exception as e:  # noqa: BLE001
+        ctx.violation(f"{key}:compute-raises:{type(e).__name__}{re_class(case)}", case, f"computing the rechunked array raised {e!r}")
+        return False
     if problem:
         ctx.violation(f"{key}:lazy-metadata{re_class(case)}", case, problem)
         return False
@@ -518,7 +525,13 @@ def run_renan(case, ctx):
     if y.chunks[1] != tgt1 or len(y.chunks[0]) != len(src[0]):
         ctx.violation("renan:wrong-chunks", case, f"result chunks {y.chunks}; requested axis 1 = {tgt1}")
         return
-    got, problem = arr.compute_blocks(y)
+    try:
+        got, problem = arr.compute_blocks(y)
+    except Hang:
+        raise
+    except Exception as e:  # noqa: BLE001
+        ctx.violation(f"renan:compute-raises:{type(e).__name__}", case, f"computing the rechunked array raised {e!r}")
+        return
     if problem:
         ctx.violation("renan:lazy-metadata", case, problem)
         return
